@@ -397,7 +397,7 @@ def build(S: Sources) -> Unit:
         kani=KaniSpec(injections={FD: KANI_FD, UFMT: KANI_UFMT}, harnesses=hs),
         build_errors=errs,
         undecided_clauses=[
-            "f64::to_string and the digit truncation / trailing-zero removal in util::fmt::format_f64: string reasoning outside both verifiers; a change confined to format_f64 is NOT detected",
+            "f64::to_string (std float formatting: exponent-free, shortest round-trip digits) is replaced by a chosen rendering; format_f64 on renderings without a dot, with more than 5 integer digits, or for sig_figs other than 4",
             "the float division n / 10^sig_figs and DisplayThroughput's count * (1e12 / picos): double-precision rounding, not under contract",
             "precision > 10 (not used by the table): picos * 10^precision can overflow u128 on the float path, e.g. {:.11} of a one-day duration",
             "width / fill handling and the Err on non-left alignment",
